@@ -439,6 +439,13 @@ impl TransformerContext {
         Ok(())
     }
 
+    /// Set a variable, subject to the limit on the length of its value.
+    pub fn set_limited_var(&mut self, name: &str, value: &str) -> Result<()> {
+        self.check_var_limit(name, value)?;
+        self.set_var(name, value);
+        Ok(())
+    }
+
     pub fn push_element(&mut self, el: &SvgElement) {
         let attrs = el.get_attrs();
         self.element_stack.push(el.clone());
